@@ -36,6 +36,14 @@ def pick(lst, i):
     return lst[-1]
 
 
+def concretize(v, lo, hi):
+    """value of a (possibly symbolic) int in [lo, hi] as a concrete int, by branching (one path per value)"""
+    for k in range(lo, hi + 1):
+        if v == k:
+            return k
+    return hi
+
+
 def note(tag=None, **kw):
     """record a concrete witness of the current path without constraining it"""
     if len(WITNESSES) >= MAXW:
